@@ -47,5 +47,7 @@ class TrashInfoCreator:
             trash_info_data = TrashinfoData(basename, content,
                                             candidate.info_dir())
             return Right(trash_info_data)
-        except (IOError, OSError) as error:
+        except (IOError, OSError, UnicodeError) as error:
+            # UnicodeError: a file name that is not valid UTF-8 cannot be
+            # written as a Path; fail this argument, not the whole command
             return Left(UnableToCreateTrashInfoContent(error))
